@@ -98,13 +98,13 @@ def r2_resolvability(chk: Check) -> None:
         chk.undecided("C10.R2", inner, "parameter kwargs comprehension", "not found", inner.loc())
     else:
         conds = " and ".join(unparse(c, 300) for g in comp.generators for c in g.ifs)
-        chk.decide("isinstance(extracted.value, Ok)" in conds, "C10.R2", inner, "parameter used only if isinstance(extracted.value, Ok)", "values of failed extractions (Err) are dereferenced / sent", inner.loc(comp))
-        chk.decide("UNRESOLVABLE" in conds and "not in" in conds, "C10.R2", inner, "parameter used only if not UNRESOLVABLE", "an unresolvable extraction result is sent as the parameter value", inner.loc(comp))
+        chk.expect("isinstance(extracted.value, Ok)" in conds, "C10.R2", inner, "parameter used only if isinstance(extracted.value, Ok)", "values of failed extractions (Err) are dereferenced / sent", inner.loc(comp))
+        chk.expect("UNRESOLVABLE" in conds and "not in" in conds, "C10.R2", inner, "parameter used only if not UNRESOLVABLE", "an unresolvable extraction result is sent as the parameter value", inner.loc(comp))
     for n in walk_body(inner.node):
         if isinstance(n, ast.If) and "transition.request_body" in unparse(n.test, 600):
             t = unparse(n.test, 600)
             which = "merge" if "link.merge_body" in t and "not link.merge_body" not in t else "replace"
-            chk.decide("isinstance(transition.request_body.value, Ok)" in t and "is not UNRESOLVABLE" in t and "is not None" in t, "C10.R2", inner,
+            chk.expect("isinstance(transition.request_body.value, Ok)" in t and "is not UNRESOLVABLE" in t and "is not None" in t, "C10.R2", inner,
                        f"request body ({which}) used only if Ok and not UNRESOLVABLE", f"guard `{t[:120]}` lets an unresolved / failed body through", inner.loc(n))
     merges = [n for n in walk_body(inner.node) if isinstance(n, ast.Assign) and unparse(n.targets[0]) == "case.body" and isinstance(n.value, ast.Dict)]
     if merges:
@@ -167,7 +167,7 @@ def r3_errors(chk: Check) -> None:
     chk.decide(ok, "C10.R3", gal, "InvalidTransition -> yield Err(exc)", "an invalid link is skipped silently", gal.loc())
     ct = P.func(f"{STATEFUL}:collect_transitions")
     t = unparse(ct.node, 100000)
-    chk.decide("errors.append(link.err())" in t and "raise InvalidStateMachine(errors)" in t, "C10.R3", ct, "link errors -> InvalidStateMachine", "invalid links are dropped instead of failing the stateful phase", ct.loc())
+    chk.expect("errors.append(link.err())" in t and "raise InvalidStateMachine(errors)" in t, "C10.R3", ct, "link errors -> InvalidStateMachine", "invalid links are dropped instead of failing the stateful phase", ct.loc())
 
 
 def r4_status_matching(chk: Check) -> None:
@@ -186,14 +186,14 @@ def r4_status_matching(chk: Check) -> None:
     dsc = P.func(f"{STATEFUL}:default_status_code")
     ex = [v for _, v in assignments_to(dsc.node, "expanded_status_codes") if v is not None]
     t = unparse(ex[0], 400) if ex else ""
-    chk.decide("value != 'default'" in t and "expand_status_code(value)" in t, "C10.R4", dsc, "default: expand every other documented code", f"`{t[:100]}`", dsc.loc())
+    chk.expect("value != 'default'" in t and "expand_status_code(value)" in t, "C10.R4", dsc, "default: expand every other documented code", f"`{t[:100]}`", dsc.loc())
     inner = dsc.module.functions.get("default_status_code.match_default_response")
     r = simple_return_expr(inner) if inner else []
     if r and isinstance(r[0], ast.Compare):
         chk.decide(isinstance(r[0].ops[0], ast.NotIn) and unparse(r[0].comparators[0]) == "expanded_status_codes", "C10.R4", inner, "default matches only codes not documented otherwise", f"`{unparse(r[0])}`", inner.loc())  # type: ignore[arg-type]
     mrf = P.func(f"{STATEFUL}:make_response_filter")
     t = unparse(mrf.node, 2000)
-    chk.decide("if status_code == 'default'" in t and "return default_status_code(all_status_codes)" in t and "return match_status_code(status_code)" in t, "C10.R4", mrf, "dispatch default / explicit", "dispatch not recognised", mrf.loc())
+    chk.expect("if status_code == 'default'" in t and "return default_status_code(all_status_codes)" in t and "return match_status_code(status_code)" in t, "C10.R4", mrf, "dispatch default / explicit", "dispatch not recognised", mrf.loc())
     # same expansion function as the conformance check
     chks = P.func("specs/openapi/checks.py:status_code_conformance")
     r1 = P.resolve_symbol(chks.module, "expand_status_code")
@@ -203,8 +203,8 @@ def r4_status_matching(chk: Check) -> None:
     # the matcher created for an operation uses the link's own status code and all documented codes
     csm = P.func(f"{STATEFUL}:create_state_machine")
     t = unparse(csm.node, 100000)
-    chk.decide("make_response_filter(link.status_code, all_status_codes)" in t and "all_status_codes = tuple(operation.definition.raw['responses'])" in t, "C10.R4", csm, "filter built from the link's response key and the operation's documented codes", "filter inputs changed", csm.loc())
-    chk.decide("bundles[bundle_name].flatmap(into_step_input(target=target, link=link" in t.replace("\n", ""), "C10.R4", csm, "a link is followed only from its own bundle", "links draw sources from another bundle", csm.loc())
+    chk.expect("make_response_filter(link.status_code, all_status_codes)" in t and "all_status_codes = tuple(operation.definition.raw['responses'])" in t, "C10.R4", csm, "filter built from the link's response key and the operation's documented codes", "filter inputs changed", csm.loc())
+    chk.expect("bundles[bundle_name].flatmap(into_step_input(target=target, link=link" in t.replace("\n", ""), "C10.R4", csm, "a link is followed only from its own bundle", "links draw sources from another bundle", csm.loc())
 
 
 def r5_evaluate(chk: Check) -> None:
@@ -212,8 +212,8 @@ def r5_evaluate(chk: Check) -> None:
     P = chk.project
     ev = P.func(f"{EXPR}/__init__.py:evaluate")
     t = unparse(ev.node, 100000)
-    chk.decide("parts = [node.evaluate(output) for node in parser.parse(expr)]" in t, "C10.R5", ev, "every parsed node is evaluated in order", "nodes are evaluated selectively / reordered", ev.loc())
-    chk.decide("if len(parts) == 1:" in t and "return parts[0]" in t, "C10.R5", ev, "single node keeps its type", "single values are stringified", ev.loc())
+    chk.expect("parts = [node.evaluate(output) for node in parser.parse(expr)]" in t, "C10.R5", ev, "every parsed node is evaluated in order", "nodes are evaluated selectively / reordered", ev.loc())
+    chk.expect("if len(parts) == 1:" in t and "return parts[0]" in t, "C10.R5", ev, "single node keeps its type", "single values are stringified", ev.loc())
     g = cfg_of(ev)
     unres = [n for n in walk_body(ev.node) if isinstance(n, ast.If) and "Unresolvable" in unparse(n.test)]
     joins = [n for n in walk_body(ev.node) if isinstance(n, ast.Return) and n.value is not None and "join" in unparse(n.value)]
@@ -223,7 +223,7 @@ def r5_evaluate(chk: Check) -> None:
         chk.decide(before and any(isinstance(s, ast.Return) and "UNRESOLVABLE" in unparse(s) for s in unres[0].body), "C10.R5", ev, "unresolvable part => UNRESOLVABLE before concatenation", "a partially unresolvable expression is concatenated and sent", ev.loc(unres[0]))
     else:
         chk.violation("C10.R5", ev, "unresolvable part => UNRESOLVABLE before concatenation", "the unresolvable check is gone: values containing an unresolved part are sent", ev.loc())
-    chk.decide("if not isinstance(expr, str):" in t, "C10.R5", ev, "non-string constants are returned unchanged", "constants are coerced", ev.loc())
+    chk.expect("if not isinstance(expr, str):" in t, "C10.R5", ev, "non-string constants are returned unchanged", "constants are coerced", ev.loc())
     nested = P.func(f"{EXPR}/__init__.py:_evaluate_nested")
     t = unparse(nested.node, 100000)
     chk.decide(t.count("is UNRESOLVABLE") >= 3, "C10.R5", nested, "nested evaluation propagates UNRESOLVABLE (key, value, item)", "an unresolvable nested value is embedded in the body", nested.loc())
